@@ -43,6 +43,10 @@ CHECKS["C09"] = dict(level="model_checking", ref="DESIGN.md §5 C09, §9", thoro
    text="explicit-state relational exploration: a state is (identity instance, validator, document); identity instances are A / B vs A, B, B / A and A .and B, A .within B vs A, B for every ordered pair of 21 (31 thorough) operand types, T .ne v vs T and T .eq v, inclusive vs exclusive ranges, each in 7 single-position contexts (top level, array element, map value, next to an optional member, generic argument, optional trailing element), ? * + vs 0*1 0* 1* for 10 entry kinds in array and map contexts, and 17 prelude names vs their Appendix D definitions; every instance is run on both real validators over the JSON universe (+ CBOR-only values) and the law of the identity is evaluated on the verdicts",
    note="no reference model (the laws relate runs of the same validator); float16/32/64 = #7.25/26/27 are left out because C02's encoding-independence leaves open what a width-specific type may reject; one recorded JSON defect is attributed on a committed state list",
    tech="bounded-exhaustive enumeration of identity instances x documents, algebraic (metamorphic) laws on the real validators")
+CHECKS["C13"] = dict(level="model_checking", ref="DESIGN.md §5 C13, §9", thorough=True,
+   text="every CSV text of <= 4 (5 thorough) symbols over {a 1 0 - + . e , quote space LF CRLF} plus a structured family (36 field spellings incl. numeric look-alikes and 64-bit boundaries, quoted fields, 1-3 columns x 1-3 rows, LF/CRLF) x header flag is a state; an own RFC 4180 reader and the property's field classes map it to a JSON document (don't-care where the property does not pin the spelling); for each of 16 distinguishing schemas validate_csv_from_str must give the verdict the real JSON validator gives on the mapped document",
+   note="trusts the harness' RFC 4180 reader and field classifier (mc/src/c13.rs); texts outside RFC 4180 and unpinned spellings (+3, 007, '1.', '.5') are don't-care",
+   tech="bounded-exhaustive enumeration of CSV texts + reference mapping conformance")
 NA = {}
 def main():
     props=[json.loads(l)["id"] for l in open("/verif/properties.jsonl")]
